@@ -408,6 +408,18 @@ func genC10(rt *rapid.T, op string, d DT, unfit bool) *C10Case {
 		}
 		c.Ops = append(c.Ops, genOpnd(rt, s, rapid.SampledFrom(c10Layouts).Draw(rt, "l"), lo+int64(i)*40, hi+int64(i)*40, 0, fmt.Sprintf("o%d", i)))
 	}
+	if rapid.IntRange(0, 5).Draw(rt, "maskedops") == 0 {
+		// masked operands: their elements are assembled all the same, and they keep their masks
+		for i := range c.Ops {
+			if rapid.Bool().Draw(rt, "maskthis") && len(c.Ops[i].Shape) > 0 && c.Ops[i].L.Final == "" {
+				m := make([]bool, prod(c.Ops[i].Shape))
+				for k := range m {
+					m[k] = rapid.Bool().Draw(rt, "m")
+				}
+				c.Ops[i].Mask = m
+			}
+		}
+	}
 	if !unfit && rank == 2 && shape[0] == shape[1] && shape[0] >= 2 && len(c.Ops) >= 2 && rapid.IntRange(0, 2).Draw(rt, "alias") == 0 {
 		// square operands: one of them is a lazily transposed view of its predecessor
 		k := rapid.IntRange(1, len(c.Ops)-1).Draw(rt, "aliaswhich")
